@@ -549,6 +549,9 @@ func (r *Runner) cmd(ctx context.Context, cm syntax.Command) {
 			r.cmd(ctx, cm.Else)
 		}
 	case *syntax.WhileClause:
+		// The exit status of a loop is that of the last body command run,
+		// or zero if the body never ran.
+		var bodyCode uint8
 		for !r.stop(ctx) {
 			oldNoErrExit := r.noErrExit
 			r.noErrExit = true
@@ -557,7 +560,15 @@ func (r *Runner) cmd(ctx context.Context, cm syntax.Command) {
 
 			stop := r.exit.ok() == cm.Until
 			r.exit.clear()
-			if stop || r.loopStmtsBroken(ctx, cm.Do) {
+			if stop {
+				if !r.exit.returning && !r.exit.exiting && !r.exit.fatalExit {
+					r.exit.code = bodyCode
+				}
+				break
+			}
+			broken := r.loopStmtsBroken(ctx, cm.Do)
+			bodyCode = r.exit.code
+			if broken {
 				break
 			}
 		}
